@@ -10,7 +10,15 @@ import (
 
 type pinfo struct {
 	path []string
-	ty   string // static type of the slot the path ends in ("any" below an interface)
+	ty   string   // static type of the slot the path ends in ("any" below an interface)
+	xp   []string // the path with promoted fields spelled out (nil: same as path)
+}
+
+func (p pinfo) resolved() []string {
+	if p.xp != nil {
+		return p.xp
+	}
+	return p.path
 }
 
 var mapKeys = []string{"k", "j"}
@@ -23,7 +31,12 @@ func cat(p []string, f string) []string {
 }
 
 // static paths through a type (one pointer level, string-keyed maps, below `any` only map keys)
-func enumPaths(te string, depth int, target bool) []pinfo {
+func (g *gen) enumPaths(te string, depth int, target bool) []pinfo {
+	return enumPathsP(te, depth, target, g.promo)
+}
+
+// promo: offer the fields promoted from embedded structs under their short names too
+func enumPathsP(te string, depth int, target bool, promo bool) []pinfo {
 	var out []pinfo
 	var walk func(te string, p []string, d int)
 	walk = func(te string, p []string, d int) {
@@ -39,14 +52,14 @@ func enumPaths(te string, depth int, target bool) []pinfo {
 			el := te[len("map[string]"):]
 			for _, k := range mapKeys {
 				q := cat(p, k)
-				out = append(out, pinfo{q, el})
+				out = append(out, pinfo{path: q, ty: el})
 				walk(el, q, d-1)
 			}
 		case te == "any":
 			if target {
 				for _, k := range anyKeys[:2] {
 					q := cat(p, k)
-					out = append(out, pinfo{q, "any"})
+					out = append(out, pinfo{path: q, ty: "any"})
 					walk("any", q, d-1)
 				}
 			}
@@ -55,12 +68,12 @@ func enumPaths(te string, depth int, target bool) []pinfo {
 				// direct fields (embedded ones under the name of their type) and the fields promoted from
 				// embedded structs under their short name
 				for _, f := range reflect.VisibleFields(st) {
-					if !f.IsExported() {
+					if !f.IsExported() || (len(f.Index) > 1 && !promo) {
 						continue
 					}
 					q := cat(p, f.Name)
 					ft := typeExpr(f.Type)
-					out = append(out, pinfo{q, ft})
+					out = append(out, pinfo{path: q, ty: ft})
 					walk(ft, q, d-1)
 				}
 			}
@@ -100,7 +113,7 @@ func enumIfacePaths(v *V, te string, depth int) []pinfo {
 					child = zeroV(ft)
 				}
 				if below {
-					out = append(out, pinfo{q, "any"})
+					out = append(out, pinfo{path: q, ty: "any"})
 				}
 				walk(child, ft, q, d-1, below)
 			}
@@ -111,7 +124,7 @@ func enumIfacePaths(v *V, te string, depth int) []pinfo {
 			for _, k := range sortedKeys(s.F) {
 				q := cat(p, k)
 				if below {
-					out = append(out, pinfo{q, "any"})
+					out = append(out, pinfo{path: q, ty: "any"})
 				}
 				walk(s.F[k], s.T, q, d-1, below)
 			}
@@ -161,6 +174,7 @@ var strPool = []string{"", "s", "hello", "x1", "abc", "Zz"}
 type gen struct {
 	r     *lib.Rng
 	depth int
+	promo bool // paths may use the short names of fields promoted from embedded structs
 }
 
 func (g *gen) leafInt() *V {
@@ -281,7 +295,11 @@ func (g *gen) decl(T string, tpaths []pinfo, n int, used *[][]string) Decl {
 	S := srcTypeW[r.Intn(len(srcTypeW))]
 	val := g.value(S, g.depth)
 	d := Decl{S: S, Val: val}
-	spaths := enumPaths(S, g.depth, false)
+	spaths := g.enumPaths(S, g.depth, false)
+	for i := range spaths {
+		// the value is looked up along the resolved spelling
+		spaths[i].xp = expandPath(S, spaths[i].path)
+	}
 	ipaths := enumIfacePaths(val, S, g.depth+1)
 	for i := 0; i < n; i++ {
 		var m Mapping
@@ -297,7 +315,7 @@ func (g *gen) decl(T string, tpaths []pinfo, n int, used *[][]string) Decl {
 					break
 				}
 				if compat(p.ty, tp.ty) {
-					if x, cls := refGet(val, p.path); cls == "" && refAssignable(x, tp.ty) {
+					if x, cls := refGet(val, p.resolved()); cls == "" && refAssignable(x, tp.ty) {
 						feedable = true
 					}
 				}
@@ -309,7 +327,7 @@ func (g *gen) decl(T string, tpaths []pinfo, n int, used *[][]string) Decl {
 		}
 		if !okT {
 			if len(tpaths) == 0 {
-				tp = pinfo{nil, T}
+				tp = pinfo{path: nil, ty: T}
 			}
 		}
 		m.To = tp.path
@@ -320,7 +338,7 @@ func (g *gen) decl(T string, tpaths []pinfo, n int, used *[][]string) Decl {
 			// run-time-checked source: prefer values whose dynamic type fits
 			var fit []pinfo
 			for _, p := range ipaths {
-				if x, cls := refGet(val, p.path); cls == "" && (st == "any" || x.dynType() == st) {
+				if x, cls := refGet(val, p.resolved()); cls == "" && (st == "any" || x.dynType() == st) {
 					fit = append(fit, p)
 				}
 			}
@@ -334,7 +352,7 @@ func (g *gen) decl(T string, tpaths []pinfo, n int, used *[][]string) Decl {
 			for _, p := range spaths {
 				if compat(p.ty, st) {
 					cands = append(cands, p)
-					if x, cls := refGet(val, p.path); cls == "" && refAssignable(x, st) {
+					if x, cls := refGet(val, p.resolved()); cls == "" && refAssignable(x, st) {
 						resolving = append(resolving, p)
 					}
 				}
@@ -343,7 +361,7 @@ func (g *gen) decl(T string, tpaths []pinfo, n int, used *[][]string) Decl {
 				cands = resolving
 			}
 			if compat(S, st) && r.Chance(1, 4) {
-				cands = append(cands, pinfo{nil, S})
+				cands = append(cands, pinfo{path: nil, ty: S})
 			}
 		}
 		if len(cands) == 0 || r.Chance(1, 20) {
@@ -411,6 +429,7 @@ func (g *gen) addOverlap(c *Case, tpaths []pinfo) string {
 		// a field promoted from an embedded struct under its short name, beside the same field (or the embedded
 		// field, or something below the field) spelled through the embedded field (F-C15l)
 		var short []pinfo
+		tpaths = enumPathsP(c.T, g.depth, true, true)
 		for _, q := range tpaths {
 			if len(expandPath(c.T, q.path)) != len(q.path) {
 				short = append(short, q)
@@ -513,7 +532,7 @@ func (g *gen) addOverlap(c *Case, tpaths []pinfo) string {
 		i := r.Intn(len(c.Decls))
 		if len(c.Decls[i].Maps) > 0 {
 			m := nd.Maps[0]
-			sp := enumPaths(c.Decls[i].S, g.depth, false)
+			sp := g.enumPaths(c.Decls[i].S, g.depth, false)
 			if len(sp) > 0 {
 				m.From = sp[r.Intn(len(sp))].path
 			} else {
@@ -567,13 +586,13 @@ func (g *gen) declFor(T string, to []string, st string) Decl {
 	for try := 0; try < 20; try++ {
 		S := srcTypeW[r.Intn(len(srcTypeW))]
 		var cands []pinfo
-		for _, p := range enumPaths(S, g.depth, false) {
+		for _, p := range g.enumPaths(S, g.depth, false) {
 			if st != "" && compat(p.ty, st) && p.ty != "any" {
 				cands = append(cands, p)
 			}
 		}
 		if st != "" && compat(S, st) {
-			cands = append(cands, pinfo{nil, S})
+			cands = append(cands, pinfo{path: nil, ty: S})
 		}
 		if len(cands) == 0 {
 			continue
@@ -584,7 +603,7 @@ func (g *gen) declFor(T string, to []string, st string) Decl {
 	return Decl{S: "int", Val: g.leafInt(), Maps: []Mapping{{To: to}}}
 }
 
-var malformedKinds = []string{"bogus-field", "unexported", "intkey-map", "nested-ptr", "below-leaf", "leaf-target", "from-all-to-all", "src-leaf", "ptr-iface"}
+var malformedKinds = []string{"bogus-field", "unexported", "intkey-map", "nested-ptr", "below-leaf", "leaf-target", "from-all-to-all", "src-leaf", "ptr-iface", "dyn-unexported"}
 
 func (g *gen) malformed(c *Case) string {
 	r := g.r
@@ -650,6 +669,20 @@ func (g *gen) malformed(c *Case) string {
 			}
 			m.From = []string{"N", "a"}
 		}
+	case "dyn-unexported":
+		// an unexported field of the struct (or pointer to struct) an interface-typed field holds at request
+		// time: the static check cannot see it, the request must fail with an error
+		o := g.value("Outer", 1)
+		in := g.value("Inner", 1)
+		if r.Chance(1, 2) {
+			in = vPtr("Inner", in)
+		}
+		o.F["H"] = in
+		d.S, d.Val, d.Chunks = "Outer", o, nil
+		for i := range d.Maps {
+			d.Maps[i].From = []string{"N"}
+		}
+		m.From = []string{"H", "u"}
 	case "leaf-target":
 		c.T = []string{"int", "string"}[r.Intn(2)]
 	case "from-all-to-all":
@@ -683,7 +716,7 @@ func (g *gen) malformed(c *Case) string {
 func (g *gen) nilCase() *Case {
 	r := g.r
 	T := []string{"Outer", "*Outer", "map[string]Outer", "map[string]Inner", "map[string]*Inner", "Inner", "map[string]any", "any", "Emb", "map[string]Emb"}[r.Intn(10)]
-	tpaths := enumPaths(T, g.depth, true)
+	tpaths := g.enumPaths(T, g.depth, true)
 	c := &Case{T: T, Short: r.Chance(1, 2), Note: "nil-value"}
 	var used [][]string
 	n := r.Range(1, 2)
@@ -785,7 +818,8 @@ func (g *gen) unitCase() *Case {
 	r := g.r
 	T := []string{"Outer", "Outer", "*Outer", "map[string]Outer", "map[string]Inner", "map[string]*Inner", "Inner", "map[string]any", "any", "map[string]map[string]any",
 		"Emb", "*Emb", "map[string]*Emb"}[r.Intn(13)]
-	tpaths := enumPaths(T, g.depth, true)
+	alias := r.Chance(1, 3)
+	tpaths := enumPathsP(T, g.depth, true, g.promo || alias)
 	if len(tpaths) == 0 {
 		return nil
 	}
@@ -803,7 +837,6 @@ func (g *gen) unitCase() *Case {
 	if r.Chance(1, 2) {
 		// an overlapping pair: a key and one of its extensions
 		var pairs [][2]pinfo
-		alias := r.Chance(1, 3)
 		for _, p := range tpaths {
 			xp := expandPath(T, p.path)
 			for _, q := range tpaths {
@@ -876,7 +909,7 @@ func (g *gen) unitCase() *Case {
 func (g *gen) base(nDecls, maxMaps int, single bool) (*Case, []pinfo) {
 	r := g.r
 	T := tgtTypeW[r.Intn(len(tgtTypeW))]
-	tpaths := enumPaths(T, g.depth, true)
+	tpaths := g.enumPaths(T, g.depth, true)
 	c := &Case{T: T, Short: r.Chance(1, 2)}
 	var used [][]string
 	total := 0
